@@ -168,7 +168,8 @@ CLAIMS = {
           "order, absent if none or unordered; null_count = missing cells) is checked by TLC over the product and "
           "compared, case by case, with the raw Statistics structs decoded by pqspec from the real files (order-"
           "separating concrete values: unsigned straddling the sign bit, category order different from label order, "
-          "multi-byte text, tz-aware instants, inf) and with ParquetFile.statistics."),
+          "multi-byte text, tz-aware instants, inf) and with ParquetFile.statistics; the stats option is explored as True, "
+          "False, 'auto' and as a list naming the column or only its neighbour."),
     design_ref="DESIGN.md section 5 C04, section 10",
     note=("An in-band NaN/NaT of a REQUIRED column is not required in the bounds; a collapsed [None] list from "
           "ParquetFile.statistics exposes nothing and is accepted; sorted_partitioned_columns is exercised only through "
